@@ -19,16 +19,16 @@ CLAIMED={
  "C15":("exploration","Seeded search over block trees, head sequences (forks <= assumed reorg depth), RPC/DB faults and syncer crashes; oracle at every commit that moves the sync position.","§3 C15"),
  "C16":("exploration","One generated chain (forks, repeated registrations, mid-step branch switch, RPC errors) synced under three batchings by the real MultiEventSyncer; fired rows vs a sequential canonical-chain reference.","§3 C16"),
  "C02":("exploration","Seeded search over block histories, eon states, restarts and faults through the real per-block processing; safety oracle on the trigger channel and on published share messages.","§3 C02"),
- "C19":("exploration","Seeded search over queues, slot triggers, restarts and message interleavings across 2-3 real Gnosis keyper stacks; identity selection vs reference, pointer arithmetic at quiescence.","§3 C19"),
+ "C19":("exploration","Seeded search over queues, slot triggers, restarts, a keyper-set switch inside the run and message interleavings across 2-3 real Gnosis keyper stacks; identity selection vs reference, pointer arithmetic at quiescence and over every committed pointer value.","§3 C19"),
  "C20":("exploration","The real eon-public-key polling service on the fake clock against a generator committing 0-4 keys per tick, both publication modes, refusals (plain and context-flavoured errors), a busy mechanism, statement errors and restarts.","§3 C20"),
- "C07":("exploration","Seeded search over Byzantine strategies, block contents and round-trip interleavings of a whole DKG run by the real keyper main loops; agreement / threshold-decryption oracle.","§3 C07"),
- "C08":("fault_enumeration","Crash points (database round trips, commits with lost reply, ambiguous broadcasts) of a recorded crash-free DKG run of the real main loop are executed as twins: sampled in the quick tier, all of them in the thorough tier.","§3 C08"),
+ "C07":("exploration","Seeded search over Byzantine strategies (incl. padded / unsolicited apologies, late check-in, timing inside phases), block contents, a stalled or restarted honest keyper and round-trip interleavings of a whole DKG run by the real keyper main loops; agreement / threshold-decryption oracle.","§3 C07"),
+ "C08":("fault_enumeration","Crash points (database round trips, commits with lost reply, ambiguous broadcasts) of a recorded crash-free DKG run of the real main loop are executed as twins (outcome and evaluation receivers compared with the crash-free run): sampled in the quick tier, all of them in the thorough tier.","§3 C08"),
 }
 NOTES={
  "C07":"consensus is a stub (one app instance, final blocks); harness plays the chain observer",
  "C08":"restart delay <= 2 s, phase length >= 8 blocks; main-loop exit = process exit; pgsim keeps only committed state; crash pairs and the retried eon are sampled, single crash points of the base run are complete in the thorough tier",
  "C20":"keys are committed by the generator the way finalizeDKG commits them; pgsim fidelity",
- "C02":"safety only (as stated); keyper sets have increasing activation blocks; simeth/pgsim fidelity",
+ "C02":"safety only (as stated); keyper sets have non-decreasing activation blocks (15% of the runs: both on one block); release times up to 2^64-1; simeth/pgsim fidelity",
  "C19":"beacon API stubbed (proposer always registered); sequencer contract enforces minimum gas",
  "C15":"canonical chain fixed during one Sync; contracts emit a key once per chain and nothing before the sync start block; pgsim/simeth fidelity",
  "C16":"faults: rpc.eth_error (failed steps retried), rpc.eth_reorg_between_calls in the block-by-block batching; repeated registrations of one identity read as latest-wins; one recorded finding (known_findings.json: re-registered trigger forgotten by a reorg rollback); simeth eth_getLogs semantics; reference matcher ref.TrigDef",
@@ -40,8 +40,8 @@ NOTES={
  "C14":"Tendermint transports attributes as opaque strings; keyper-table effects are covered by World B checks once built",
  "C17":"eth_getLogs filter semantics modelled in ref.FilterPasses; allocation bound 8MiB+1KiB/byte",
  "C18":"database-backed read-only handlers are exercised for routing only (nil pool)",
- "C09":"stub consensus delivers identical blocks; overlay rewrites all range-over-map sites; Log/Info free-text excluded",
- "C10":"no-effect judged on the projection named in the statement; Log/Info free-text excluded",
+ "C09":"stub consensus delivers identical blocks; overlay rewrites all range-over-map sites; of the free-text Log only the message (first line) is compared, stack traces and Info are not",
+ "C10":"no-effect judged on the projection named in the statement; of Log only the message text is compared across replicas",
  "C11":"thresholds within 0..n+1 (the quantifier); monitor is the most permissive reading of the statement",
  "C12":"pinned tendermint ValidatorSet.UpdateWithChangeSet is how updates are applied",
  "C13":"disk model of simfs (sync makes data durable, dir ops durable in order, optionally everything older than the current save durable); Tendermint replays blocks after Info().LastBlockHeight",
